@@ -38,7 +38,7 @@ def isMinusZero (n : Bytes) : Bool := match n with | 45 :: r => !r.isEmpty && r.
 def nameClass (n : Bytes) : String :=
   if n.isEmpty then "empty-name"
   else if startsWithDigit n && !(n.all isDigit) && n.all inTail then "leading-digit-name"
-  else if isMinusZero n then "minus-zero-name"
+  else if isMinusZero n then "minus-zero-name"   -- since the fix: only type names (getTypeName) are affected
   else if (parseInt64 n).isSome then "numeric-like-name"
   else if startsWithDigit n then "leading-digit-name"
   else "unclassified"
